@@ -3,7 +3,7 @@
 # manifest) and checks that every test in BASELINE.json's stable_pass list passes.
 # exit 0 = all stable tests pass; 1 = some stable test failed or is missing.
 set -u
-cd /repo
+cd "${1:-/repo}"
 LOG=$(mktemp /tmp/baseline.XXXXXX.log)
 CARGO_NET_OFFLINE=true cargo test --workspace --no-fail-fast --offline -- --test-threads 8 >"$LOG" 2>&1
 python3 - "$LOG" <<'PY'
